@@ -613,3 +613,250 @@ Proof.
     split; [right; split; [first [exact Hk | reflexivity] | unfold fresh_in, item; lia]|].
     intros k' r Hk' Hf. exact (Hch k' r Hk' Hf).
 Qed.
+
+(* ---------- OpenFile ---------- *)
+Lemma flag_ok_facts flag : flag_ok flag = true ->
+  flag_has flag o_append = false /\
+  (flag_has flag o_trunc && flag_has flag (Z.lor o_rdwr o_wronly) && negb (Z.land flag memfs_access_mask =? 0)
+     = flag_has flag o_trunc && negb (Z.land flag memfs_access_mask =? 0)) /\
+  (flag_has flag o_trunc && flag_has flag (Z.lor o_rdwr o_wronly) && (Z.land flag memfs_access_mask =? 0) = false).
+Proof.
+  unfold flag_ok. intros H. apply andb_true_iff in H as [H _]. apply andb_true_iff in H as [H _]. apply Z.eqb_eq in H.
+  assert (Hm : forall bit, Z.land bit flag_mask = 0 -> Z.land flag bit = 0).
+  { intros bit H2. rewrite <- (Z.land_m1_r bit), <- (Z.lor_lnot_diag flag_mask), Z.land_lor_distr_r, H2, Z.lor_0_l.
+    rewrite (Z.land_comm bit), Z.land_assoc, H. reflexivity. }
+  split; [|split].
+  - unfold flag_has. rewrite (Hm o_append); reflexivity.
+  - change (Z.lor o_rdwr o_wronly) with memfs_access_mask. unfold flag_has at 2.
+    destruct (Z.land flag memfs_access_mask =? 0) eqn:E; [now rewrite !andb_false_r|]. apply Z.eqb_neq in E.
+    assert (0 <= Z.land flag memfs_access_mask) by (apply Z.land_nonneg; right; discriminate).
+    assert (E2 : 0 <? Z.land flag memfs_access_mask = true) by (apply Z.ltb_lt; lia). rewrite E2, andb_true_r. reflexivity.
+  - change (Z.lor o_rdwr o_wronly) with memfs_access_mask. unfold flag_has at 2.
+    destruct (Z.land flag memfs_access_mask =? 0) eqn:E; [|apply andb_false_r]. apply Z.eqb_eq in E. rewrite E. cbn. now rewrite andb_false_r.
+Qed.
+
+Definition of_ro (flag : Z) : bool := Z.land flag memfs_access_mask =? 0.
+Definition of_tr (flag : Z) : bool := flag_has flag o_trunc && negb (of_ro flag).
+
+(* the name exists, O_CREATE|O_EXCL not both given: truncated when asked for with write access, a handle at offset 0 *)
+Lemma openfile_existing s p flag perm f :
+  flag_ok flag = true -> lookup s (normalize_path p) = Some f ->
+  flag_has flag o_excl && flag_has flag o_create = false ->
+  m_step s (OpenFile p flag perm) =
+    (bump (fst (alloc_handle (if of_tr flag then upd_node s f (trunc_node (mclock s)) else s) (mkH f 0 0 false (of_ro flag)))),
+     RHandle (length (mhandles s))).
+Proof.
+  intros Hf Hl He. destruct (flag_ok_facts flag Hf) as (Ha & Ht1 & Ht2).
+  rewrite m_step_bump. cbn [m_step_raw]. unfold m_openfile. rewrite Hl, He, Ha.
+  fold (of_ro flag) in *. rewrite Ht1, Ht2. fold (of_tr flag).
+  destruct (of_tr flag); unfold alloc_handle; cbn [fst snd]; [|reflexivity].
+  fold (trunc_node (mclock s)). rewrite (MemFsWF.mhandles_upd s f (trunc_node (mclock s))). reflexivity.
+Qed.
+
+Lemma openfile_excl s p flag perm f :
+  lookup s (normalize_path p) = Some f -> flag_has flag o_excl && flag_has flag o_create = true ->
+  m_step s (OpenFile p flag perm) = (bump s, RErr (EW KExist)).
+Proof. intros Hl He. rewrite m_step_bump. cbn [m_step_raw]. unfold m_openfile. rewrite Hl, He. reflexivity. Qed.
+
+Lemma openfile_missing s p flag perm :
+  lookup s (normalize_path p) = None -> flag_has flag o_create = false ->
+  m_step s (OpenFile p flag perm) = (bump s, RErr (EW KNotExist)).
+Proof. intros Hl He. rewrite m_step_bump. cbn [m_step_raw]. unfold m_openfile. rewrite Hl, He. reflexivity. Qed.
+
+(* the frame of OpenFile on an existing name *)
+Lemma openfile_existing_frame s flag f n :
+  WF s -> get_node s f = Some n -> (of_tr flag = true -> ndir n = false) ->
+  let s' := bump (fst (alloc_handle (if of_tr flag then upd_node s f (trunc_node (mclock s)) else s) (mkH f 0 0 false (of_ro flag)))) in
+  WF s' /\ Frame Some s s' /\ dkeep (fun r => of_tr flag = true /\ r = f) s s' /\ hkeep s s' /\
+  nth_error (mhandles s') (length (mhandles s)) = Some (mkH f 0 0 false (of_ro flag)) /\
+  length (mhandles s') = S (length (mhandles s)) /\
+  (forall k, lookup s' k = lookup s k) /\
+  (exists n', get_node s' f = Some n' /\ ndir n' = ndir n /\ ndata n' = if of_tr flag then [] else ndata n).
+Proof.
+  intros W Hn Hd s'. unfold s'. destruct (of_tr flag) eqn:Et.
+  - set (s1 := upd_node s f (trunc_node (mclock s))).
+    assert (Hh1 : mhandles s1 = mhandles s) by apply MemFsWF.mhandles_upd.
+    split. { apply WF_bump. apply WF_alloc_handle. apply WF_attr; [|exact W]. apply (keeps_comp (with_mtime _) (with_data _)); [apply keeps_mtime | apply keeps_data]. }
+    split. { apply (frame_comp_id Some s s1); [|now apply frame_view]. apply frame_upd_at. intros n0 Hn0. rewrite Hn in Hn0. inversion Hn0; subst n0.
+             split; [reflexivity|]. rewrite (Hd eq_refl). discriminate. }
+    split. { intros r x x' Hx Hx' HX. apply (dkeep_upd_only s f (trunc_node (mclock s)) r x x' Hx Hx'). intros E. apply HX. now split. }
+    split. { intros i h Hi. unfold bump, alloc_handle. cbn [fst mhandles]. rewrite Hh1. rewrite nth_error_app1; [exact Hi | now apply nth_error_lt in Hi]. }
+    split. { unfold bump, alloc_handle. cbn [fst mhandles]. rewrite Hh1. apply nth_error_app_last. }
+    split. { unfold bump, alloc_handle. cbn [fst mhandles]. rewrite Hh1, app_length. cbn. lia. }
+    split. { intros k. change (lookup s1 k = lookup s k). apply MemFsWF.lookup_upd. }
+    exists (trunc_node (mclock s) n). split; [change (get_node s1 f = Some (trunc_node (mclock s) n)); unfold s1; now apply get_upd_same|]. split; reflexivity.
+  - split; [apply WF_bump; now apply WF_alloc_handle|]. split; [now apply frame_view|]. split; [now apply dkeep_view|].
+    split; [apply hkeep_alloc|]. destruct (hnew_alloc s (mkH f 0 0 false (of_ro flag))) as [A B]. split; [exact A|]. split; [exact B|].
+    split; [reflexivity|]. exists n. split; [exact Hn|]. split; reflexivity.
+Qed.
+
+(* OpenFile with O_CREATE on a free name (well-formed: the parent is a directory) *)
+Lemma openfile_create_step s p flag perm :
+  WF s -> wf_op s (OpenFile p flag perm) = true ->
+  lookup s (normalize_path p) = None -> flag_has flag o_create = true ->
+  let key := normalize_path p in
+  let s' := fst (m_step s (OpenFile p flag perm)) in
+  exists f, snd (m_step s (OpenFile p flag perm)) = RHandle (length (mhandles s)) /\
+    WF s' /\ Frame Some s s' /\ dkeep nobody s s' /\ hkeep s s' /\
+    nth_error (mhandles s') (length (mhandles s)) = Some (mkH f 0 0 false (of_ro flag)) /\
+    length (mhandles s') = S (length (mhandles s)) /\
+    lookup s' key = Some f /\ (exists n, get_node s' f = Some n /\ ndir n = false /\ ndata n = []) /\ fresh_in s f /\
+    (forall k' r, lookup s' k' = Some r -> fresh_in s r ->
+       (k' = key /\ r = f) \/ (below k' key = true /\ exists n, get_node s' r = Some n /\ ndir n = true /\ ndata n = [])).
+Proof.
+  intros W Hwf Hl Hcr key s'. fold key in Hl.
+  assert (W' : WF s') by (apply WF_step; assumption).
+  cbn [wf_op] in Hwf. apply andb_true_iff in Hwf as [Hw Hwf]. apply andb_true_iff in Hw as [Hw Hfo]. fold key in Hwf.
+  assert (Hc : canon key) by (apply canon_normalize; exact Hw).
+  assert (Hk : kind_at s key = None) by (unfold kind_at; now rewrite Hl).
+  rewrite Hk, Hcr in Hwf.
+  assert (Hr : key <> s_slash) by exact (not_root_of_free s key W Hl).
+  assert (Hnfp : no_file_prefix s key = true) by (now apply dir_parent_nfp).
+  destruct (flag_ok_facts flag Hfo) as (Ha & Ht1 & Ht2).
+  destruct (WF_create_chain s key W Hc Hl Hnfp) as [W3 F3].
+  destruct (chain_frame s key (new_file key (mclock s)) 0 W Hl (fun H => match Bool.diff_false_true H with end) W3 F3)
+    as (F & D & Hh & Hl3 & (n3 & Hn3 & En3) & Hch).
+  set (item := length (mheap s)) in *. set (s3 := reg _ item 0) in *.
+  assert (Hn3d : ndir n3 = false /\ ndata n3 = []).
+  { apply (f_equal (fun x => (ndir x, ndata x))) in En3. cbn in En3. inversion En3. split; reflexivity. }
+  destruct Hn3d as [Hn3d Hn3e].
+  (* the state the call produces *)
+  set (s4 := if of_tr flag then upd_node s3 item (trunc_node (mclock s3)) else s3).
+  set (s5 := fst (alloc_handle s4 (mkH item 0 0 false (of_ro flag)))).
+  assert (Hst : m_step s (OpenFile p flag perm) = (bump (upd_node s5 item (with_mode (Z.land perm chmod_bits))), RHandle (length (mhandles s)))).
+  { rewrite m_step_bump. cbn [m_step_raw]. unfold m_openfile. fold key. rewrite Hl, Hcr, (nfp_below_file s key W Hc Hnfp).
+    rewrite m_create_node_eq. fold item. fold s3. rewrite Hn3, Hn3e. cbn [zlen length Z.of_nat]. rewrite Ha.
+    fold (of_ro flag) in *. rewrite Ht1, Ht2. fold (of_tr flag). fold (trunc_node (mclock s3)). fold s4.
+    assert (Hh4 : mhandles s4 = mhandles s) by (unfold s4; destruct (of_tr flag); [rewrite MemFsWF.mhandles_upd|]; exact Hh).
+    assert (E0 : (if of_tr flag then 0 else 0) = 0) by (destruct (of_tr flag); reflexivity). rewrite E0.
+    unfold alloc_handle. cbn [fst snd].
+    assert (Hl5 : lookup s5 (normalize_path key) = Some item).
+    { rewrite (canon_norm key Hc). unfold s5, alloc_handle. cbn [fst]. change (lookup s4 key = Some item).
+      unfold s4. destruct (of_tr flag); [rewrite MemFsWF.lookup_upd|]; exact Hl3. }
+    unfold set_file_mode. change (mkM (mdata s4) (mheap s4) (mhandles s4 ++ [mkH item 0 0 false (of_ro flag)]) (mclock s4)) with s5.
+    rewrite Hl5, Hh4. reflexivity. }
+  unfold s'. rewrite Hst. cbn [fst snd]. exists item.
+  assert (F34 : Frame Some s3 s4 /\ dkeep nobody s3 s4 /\ mhandles s4 = mhandles s3 /\ lookup s4 key = Some item /\
+                (exists n4, get_node s4 item = Some n4 /\ ndir n4 = false /\ ndata n4 = []) /\
+                (forall r, r <> item -> get_node s4 r = get_node s3 r) /\ (forall k, lookup s4 k = lookup s3 k)).
+  { unfold s4. destruct (of_tr flag).
+    - split; [apply frame_upd_at; intros n0 Hn0; rewrite Hn3 in Hn0; inversion Hn0; subst n0; split; [reflexivity | congruence]|].
+      split. { intros r x x' Hx Hx' _. rewrite get_upd in Hx'. destruct (Nat.eqb item r) eqn:E; [|congruence].
+               apply Nat.eqb_eq in E. subst r. rewrite Hx in Hx'. cbn in Hx'. inversion Hx'. cbn. rewrite Hn3 in Hx. inversion Hx; subst x. now rewrite Hn3e. }
+      split; [apply MemFsWF.mhandles_upd|]. split; [rewrite MemFsWF.lookup_upd; exact Hl3|].
+      split; [exists (trunc_node (mclock s3) n3); split; [now apply get_upd_same | split; [exact Hn3d | reflexivity]]|].
+      split; [intros r Hr0; apply get_upd_other; congruence | intros k; apply MemFsWF.lookup_upd].
+    - split; [apply frame_refl|]. split; [now apply dkeep_view|]. split; [reflexivity|]. split; [exact Hl3|].
+      split; [exists n3; auto|]. split; reflexivity. }
+  destruct F34 as (F34 & D34 & Hh34 & Hl4 & (n4 & Hn4 & Hn4d & Hn4e) & Hoth4 & Hlk4).
+  set (s6 := upd_node s5 item (with_mode (Z.land perm chmod_bits))).
+  assert (Hn5 : get_node s5 item = Some n4) by exact Hn4.
+  assert (Hn6 : get_node s6 item = Some (with_mode (Z.land perm chmod_bits) n4)) by (unfold s6; now apply get_upd_same).
+  split; [reflexivity|]. split; [unfold s' in W'; rewrite Hst in W'; exact W'|].
+  assert (F45 : Frame Some s4 s5) by (now apply frame_view).
+  assert (F56 : Frame Some s5 s6) by (apply frame_upd; intros n; split; reflexivity).
+  assert (Fall : Frame Some s s6).
+  { eapply frame_comp_id; [|exact F56]. eapply frame_comp_id; [|exact F45]. eapply frame_comp_id; [exact F | exact F34]. }
+  split; [eapply frame_comp_id; [exact Fall | apply frame_bump]|].
+  split.
+  { intros r x x' Hx Hx' _. change (get_node s6 r = Some x') in Hx'.
+    destruct (frame_kkeep _ _ _ F r x Hx) as (x3 & Hx3 & _). destruct (frame_kkeep _ _ _ F34 r x3 Hx3) as (x4 & Hx4 & _).
+    assert (Hx5 : get_node s5 r = Some x4) by exact Hx4.
+    pose proof (dkeep_upd_data nobody s5 item (with_mode (Z.land perm chmod_bits)) (fun _ => eq_refl) r x4 x' Hx5 Hx' (fun H => H)) as E1.
+    rewrite E1, (D34 r x3 x4 Hx3 Hx4 (fun H => H)). exact (D r x x3 Hx Hx3 (fun H => H)). }
+  assert (Hh6 : mhandles s6 = mhandles s ++ [mkH item 0 0 false (of_ro flag)]).
+  { unfold s6. rewrite MemFsWF.mhandles_upd. unfold s5, alloc_handle. cbn [fst mhandles]. now rewrite Hh34, Hh. }
+  split. { intros i h Hi. change (nth_error (mhandles s6) i = Some h). rewrite Hh6. rewrite nth_error_app1; [exact Hi | now apply nth_error_lt in Hi]. }
+  split. { change (nth_error (mhandles s6) (length (mhandles s)) = Some (mkH item 0 0 false (of_ro flag))). rewrite Hh6. apply nth_error_app_last. }
+  split. { change (length (mhandles s6) = S (length (mhandles s))). rewrite Hh6, app_length. cbn. lia. }
+  split. { change (lookup s6 key = Some item). unfold s6. rewrite MemFsWF.lookup_upd. exact Hl4. }
+  split. { eexists. split; [exact Hn6|]. cbn [ndir ndata with_mode]. now split. }
+  split; [unfold fresh_in, item; lia|].
+  intros k' r Hk' Hfr. change (lookup s6 k' = Some r) in Hk'. unfold s6 in Hk'. rewrite MemFsWF.lookup_upd in Hk'.
+  change (lookup s4 k' = Some r) in Hk'. rewrite Hlk4 in Hk'.
+  destruct (Hch k' r Hk' Hfr) as [Hx|(Hb & n & Hn & Hnd & Hne)]; [now left | right]. split; [exact Hb|].
+  assert (Hri : r <> item).
+  { intros ->. assert (k' = key) by (apply (GWF_inj _ _ _ s3 k' key item W3); auto). subst k'. rewrite below_irrefl in Hb. discriminate. }
+  exists n. split; [|now split]. change (get_node s6 r = Some n). unfold s6. rewrite get_upd_other by congruence.
+  change (get_node s4 r = Some n). rewrite Hoth4 by exact Hri. exact Hn.
+Qed.
+
+(* ---------- Rename ---------- *)
+Definition rho_mv (old new : str) (k' : str) : option str :=
+  if under new k' then Some (rw new old k') else if under old k' then None else Some k'.
+
+Lemma under_atbelow a k : under a k = true <-> atbelow a k.
+Proof. rewrite under_spec. unfold atbelow. tauto. Qed.
+
+(* the effect of a successful Rename on a well-formed state: the subtree moves, nodes keep kind and bytes; when
+   the directory of the target is missing (MemMapFs then creates it and its missing ancestors) new empty
+   directories appear at proper ancestors of the target *)
+Record MovedG (old new : str) (s s' : mst) : Prop := mkMovedG {
+  mg_sub : forall k0, atbelow old k0 -> lookup s' (rw old new k0) = lookup s k0;
+  mg_gone : forall k, atbelow old k -> lookup s' k = None;
+  mg_rest : forall k, ~ atbelow old k -> ~ atbelow new k ->
+            lookup s' k = lookup s k \/
+            (lookup s k = None /\ below k new = true /\
+             exists r n, lookup s' k = Some r /\ fresh_in s r /\ get_node s' r = Some n /\ ndir n = true /\ ndata n = []);
+  mg_nodes : forall r n, get_node s r = Some n -> exists n', get_node s' r = Some n' /\ ndir n' = ndir n /\ ndata n' = ndata n;
+  mg_heap : (length (mheap s) <= length (mheap s'))%nat;
+  mg_handles : mhandles s' = mhandles s
+}.
+
+Lemma moved_MovedG old new s s' : moved old new s s' -> MovedG old new s s'.
+Proof.
+  intros [(Hlen & Hh & Ha) Ms Mg Mr]. split; auto.
+  - intros r n Hn. destruct (Ha r n Hn) as (n' & Hn' & E). exists n'. unfold attrs in E. inversion E. auto.
+  - lia.
+Qed.
+
+Lemma MovedG_frame old new s s' : bound_ok s -> MovedG old new s s' -> Frame (rho_mv old new) s s' /\ dkeep nobody s s'.
+Proof.
+  intros Hb [Ms Mg Mr Mn Mh _]. split; [split|].
+  - intros k'. unfold rho_mv. destruct (under new k') eqn:En.
+    + left. apply under_atbelow, atbelow_suffix in En as (rest & Hrest & ->). rewrite rw_app. cbn [olookup].
+      rewrite <- (rw_app old new rest). apply Ms. apply atbelow_suffix. now exists rest.
+    + destruct (under old k') eqn:Eo.
+      * left. cbn [olookup]. apply Mg. now apply under_atbelow.
+      * cbn [olookup]. destruct (Mr k') as [E|(E & _ & r & n & Hl & Hf & _)].
+        -- intros H. apply under_atbelow in H. congruence.
+        -- intros H. apply under_atbelow in H. congruence.
+        -- now left.
+        -- right. split; [exact E|]. now exists r.
+  - intros r n Hn. destruct (Mn r n Hn) as (n' & A & B & C). exists n'. auto.
+  - intros k' r n' Hl Hf Hn' Hd.
+    assert (Hold : forall k, lookup s k = Some r -> False).
+    { intros k Hk. destruct (Hb k r Hk) as (x & Hx). exact (fresh_not_old s r x Hf Hx). }
+    destruct (under new k') eqn:En.
+    + exfalso. apply under_atbelow, atbelow_suffix in En as (rest & Hrest & ->).
+      rewrite <- (rw_app old new rest), Ms in Hl by (apply atbelow_suffix; now exists rest). eauto.
+    + destruct (under old k') eqn:Eo.
+      * rewrite Mg in Hl by (now apply under_atbelow). discriminate.
+      * destruct (Mr k') as [E|(E & _ & r2 & n2 & Hl2 & _ & Hn2 & Hd2 & He2)].
+        -- intros H. apply under_atbelow in H. congruence.
+        -- intros H. apply under_atbelow in H. congruence.
+        -- exfalso. rewrite E in Hl. eauto.
+        -- rewrite Hl in Hl2. inversion Hl2; subst r2. rewrite Hn' in Hn2. inversion Hn2; subst n2. exact He2.
+  - exact Mh.
+  - intros r n n' Hn Hn' _. destruct (Mn r n Hn) as (n2 & A & _ & C). rewrite Hn' in A. inversion A; subst n2. exact C.
+Qed.
+
+(* Rename on a well-formed state, well-formed call, the source exists and differs from the target *)
+Lemma rename_step_wf s p q f :
+  WF s -> wf_op s (Rename p q) = true -> lookup s (normalize_path p) = Some f -> normalize_path p <> normalize_path q ->
+  let s' := fst (m_step s (Rename p q)) in
+  snd (m_step s (Rename p q)) = ROk /\ WF s' /\ MovedG (normalize_path p) (normalize_path q) s s'.
+Proof.
+  intros W Hwf Hl Hne s'. destruct (rename_full s p q f W Hwf Hl Hne) as (Hres & W' & M).
+  unfold s'. rewrite m_step_bump. cbn [fst snd m_step_raw]. split; [exact Hres|]. split; [now apply WF_bump|].
+  apply moved_MovedG in M. destruct M as [Ms Mg Mr Mn Mh Mhd]. split; auto.
+Qed.
+
+(* the same call when the source is missing or equals the target: nothing happens *)
+Lemma rename_noop s p q :
+  lookup s (normalize_path p) = None \/ normalize_path p = normalize_path q -> fst (m_step s (Rename p q)) = bump s.
+Proof.
+  intros H. rewrite m_step_bump. cbn [fst m_step_raw]. unfold m_rename.
+  destruct (lookup s (normalize_path p)) as [f|] eqn:Hl; [|reflexivity].
+  destruct H as [H|H]; [discriminate|]. rewrite H, beqb_refl. reflexivity.
+Qed.
